@@ -1,4 +1,6 @@
 SPECIFICATION Spec
+CONSTANT MaxCount = 255
+CONSTANT AxVals = {0}
 INVARIANT ArithChar
 INVARIANT RippleAgree
 INVARIANT RippleLemma
